@@ -48,6 +48,8 @@ import Driver.VocBlocks
 import Driver.Label
 import Driver.ShortIo
 import Driver.HandleG
+import Driver.StageLoop
+import Driver.RsrcSwap
 open Sf
 
 def lawOf (s : String) : Option G711.Law :=
@@ -141,4 +143,6 @@ def main (args : List String) : IO UInt32 := do
   | "label" :: rest => LabelDriver.main rest
   | "shortio" :: rest => ShortIoDriver.main rest
   | "handleg" :: rest => HandleGDriver.cmd rest
+  | "stage" :: rest => StageLoopDriver.main rest
+  | "second" :: rest => RsrcSwapDriver.main rest
   | _ => IO.eprintln "usage: sfmodel <g711|...> ..."; return 2
